@@ -265,6 +265,13 @@ func runC11(t *testing.T, tp *simrt.Tape, keepTrace bool) hx.Result {
 				o.nonEmpty = true
 			}
 		}
+		// display limits truncate results on the caller's side of the shard boundary
+		// (collectSender), outside the per-shard recover: only survival is judged here
+		for _, q := range queries[:3] {
+			ss.Search(ctx, q, &zoekt.SearchOptions{ChunkMatches: true, NumContextLines: 1, MaxMatchDisplayCount: 1, MaxDocDisplayCount: 2})
+			ss.Search(ctx, q, &zoekt.SearchOptions{NumContextLines: 2, MaxMatchDisplayCount: 2})
+			o.evals += 2
+		}
 		rl, err := ss.List(ctx, &query.Const{Value: true}, nil)
 		o.evals++
 		if err != nil {
